@@ -354,3 +354,20 @@ _ADD4 = {
 }
 for _p, _t in _ADD4.items():
     META[_p]['text'] = META[_p]['text'] + _t
+
+_ADD5 = {
+    'C01': ' Heap entries written as a NamedTuple are read as plain tuples; asserts are dropped (python -O), so an effect hidden in one is missing.',
+    'C04': ' The warm-up time and replication end come from the replication time-frame rule (R4.12).',
+    'C05': ' Exception classes of the package do not render the objects they carry lazily (str(e) runs inside the error strategies).',
+    'C06': ' A start command runs with its own bound and inclusiveness (horizon rule shared with C03).',
+    'C07': ' A value buffered between draws is dropped on every path of a stream assignment (shared with C14).',
+    'C08': ' match statements are compiled to tests and bindings (a mapping pattern is not a dict test).',
+    'C09': ' Named thresholds (IntEnum) are folded to their numbers before the NaN-threshold table is extracted.',
+    'C10': ' initialize() is followed through the methods it calls on self / super; no accumulator is reset after its first notification.',
+    'C11': ' The event type a simulation statistic accepts without listen_to() is the type its notify() forwards observations as.',
+    'C14': ' The stream rules of C12 are shared; buffered values are reset path-sensitively on stream assignment.',
+    'C15': ' Helper Gamma distributions of composed samplers carry the parameters the transformation law requires (Pearson5, Erlang).',
+    'C18': ' match statements in set_value are compiled to guard clauses before the type / range guards are compared with the constructor.',
+}
+for _p, _t in _ADD5.items():
+    META[_p]['text'] = META[_p]['text'] + _t
